@@ -629,6 +629,12 @@ class Exec:
             if ty == "bool" and is_const(a) and is_const(b) and base in ("BitAnd", "BitOr", "BitXor"):
                 x, y = cint(a), cint(b)
                 res = mk_const("bool", {"BitAnd": x & y, "BitOr": x | y, "BitXor": x ^ y}[base])
+            elif ty == "bool" and base in ("BitAnd", "BitOr") and (is_const(a) or is_const(b)):
+                k, o = (a, b) if is_const(a) else (b, a)
+                if base == "BitAnd":
+                    res = o if cint(k) else mk_const("bool", 0)
+                else:
+                    res = mk_const("bool", 1) if cint(k) else o
             else:
                 res = mk("i", base.lower(), ty, a, b)
                 ovf = mk("i", base.lower() + "_ovf", ty, a, b)
@@ -820,11 +826,15 @@ class Exec:
                     return None
                 callee = tf[1]
         if callee is not None:
-            if any(f.body is callee for f in st.frames):
+            depth_same = sum(1 for f in st.frames if f.body is callee)
+            if depth_same and self.hooks is not None and getattr(self.hooks, "recursion_limit", 0) > depth_same \
+                    and not callee.reachable and callee.ident() not in self.policy.keep:
+                depth_same = 0      # bounded re-entry of a private recursive helper (decided by the hooks' facts)
+            if depth_same:
                 if self.policy.level == "prim" and callee.ident() not in self.policy.keep:
                     raise Unsupported("recursion into %s" % callee.ident())
                 return self.opaque_call(st, fr, t, callee.ident(), args, callee)
-            if self.policy.should_inline(fr.body, callee, fr.depth):
+            if self.policy.should_inline(fr.body, callee, fr.depth) or (self.hooks is not None and getattr(self.hooks, "force_inline", None) and self.hooks.force_inline(callee, st)):
                 mir = callee.mir
                 locs = {i: st.alloc() for i in range(len(mir["locals"]))}
                 nf = Frame(callee, mir, locs, (t["dest"], t["t"]), fr.depth + 1)
@@ -847,6 +857,8 @@ class Exec:
                 pure_args.append(self.deref_value(st, a))
             else:
                 pure_args.append(self.deref_value(st, a))
+        if self.hooks is not None and hasattr(self.hooks, "on_call"):
+            self.hooks.on_call(self, st, fr, t, name, callee, pure_args)
         # which arguments are &mut ?  use the MIR operand's local type
         for i, ao in enumerate(t["args"]):
             ty = None
@@ -935,7 +947,15 @@ class Exec:
             if k == "assert":
                 cond = self.operand(st, fr, t["cond"])
                 if is_const(cond) and bool(cint(cond)) != t["expected"]:
+                    if self.hooks is not None:
+                        self.hooks.on_panic(self, st, fr, t, "assert:" + t["msg"]["k"])
                     return ("panic", "assert:" + t["msg"]["k"])
+                if not is_const(cond) and self.hooks is not None:
+                    self.hooks.on_assert(self, st, fr, t, cond)
+                    c2 = cond; want = 1 if t["expected"] else 0
+                    while tag(c2) == "not":
+                        c2 = c2[1]; want = 1 - want
+                    st.known[c2] = want
                 bi = t["t"]; continue
             if k == "unreachable":
                 return ("unreachable",)
@@ -948,6 +968,8 @@ class Exec:
                 if r[0] == "enter":
                     bi = 0; continue
                 if r[0] == "diverge":
+                    if self.hooks is not None:
+                        self.hooks.on_panic(self, st, fr, t, r[1][1])
                     nm = r[1][1]
                     if nm.startswith("core::panicking::") or nm.startswith("core::rt::") or "begin_panic" in nm or "panic_fmt" in nm:
                         nm = "panic"
@@ -993,6 +1015,12 @@ class Exec:
                     if c in st.known:
                         bi = t_bb if st.known[c] else f_bb
                         continue
+                    if self.hooks is not None:
+                        dec = self.hooks.decide(self, st, c)
+                        if dec is not None:
+                            st.known[c] = 1 if dec else 0
+                            bi = t_bb if dec else f_bb
+                            continue
                     s1 = st.fork(); s1.known[c] = 1
                     if neg: s1.known[d] = 0
                     s2 = st.fork(); s2.known[c] = 0
